@@ -96,8 +96,36 @@ def analyse(prog, fn, rng_sensitive=True):
                     out.append({"kind": "vec-in-hash-order", "ln": ct["ln"], "what": "collects an unordered iteration over %s into a Vec that is used without sorting" % src, "over": src,
                                 "returned": kind == "collect" and dl == 0})
                 else:
+                    if kind in ("for_each", "fold") and _closure_is_loop_body(prog, fn, ct, kind, rng_sensitive, src, out):
+                        continue
                     out.append({"kind": kind, "ln": ct["ln"], "what": "order-sensitive consumer `%s` on an unordered iteration over %s" % (kind, src), "over": src})
     return out
+
+
+_MAP_ACC = re.compile(r"^(std::collections::(hash_map::|hash::map::|btree_map::|btree::map::)?(HashMap|HashSet|BTreeMap|BTreeSet)|ahash::(AHashMap|AHashSet)|hashbrown::)")
+
+
+def _closure_is_loop_body(prog, fn, ct, kind, rng_sensitive, src, out):
+    """`it.for_each(|x| body)` / `it.fold(map, |mut m, x| { body; m })` is the for loop with that body: judge the closure body by the same
+    sink table (its findings are appended to out).  A fold is read this way only when its accumulator is a map or set - an accumulator of
+    any other type may be combined non-commutatively, which the sink table does not see.  False = not resolvable, caller reports the consumer."""
+    if not ct.get("args"):
+        return False
+    s_ = src_of_operand(fn, ct["args"][-1])
+    if s_.kind != "agg" or s_.rv.get("ak") != "closure":
+        return False
+    c = prog.fns.get(s_.rv["n"])
+    if c is None:
+        return False
+    if kind == "fold":
+        m = re.search(r"Iterator>::fold::<(.+)$", ct.get("fnargs") or "")
+        if not m or not _MAP_ACC.match(m.group(1)):
+            return False
+    for g in prog.with_children(c):
+        for s in _body_sinks(prog, g, set(range(len(g.blocks))), rng_sensitive):
+            s["over"] = src
+            out.append(s)
+    return True
 
 
 def _sorted_later(fn, local, after_block):
